@@ -16,6 +16,7 @@ ALPHA = Alphabet(
         ((T1, T0), "a", "none"),
         ((T1, T0), "a", "badname"),
         ((T1, T0), "a", "badcb"),
+        ((T1, T0), "a", "badcb0"),
         ((T1, T0), "a", "badtypes"),
     ],
     fac=[((T0,), "a", False, "ok"), ((T1, T0), "a", False, "ok"), ((T1, T0), "a", False, "badname"), ((T1, T0), "a", False, "nonetype")],
@@ -56,7 +57,7 @@ R = Harness(
     title="R-history with conflicting and invalid adds: partial function, identity stability, atomic failure",
     bound_text=lambda tier: (
         "histories of 3 ops over <=2 contexts; add_resource(T0|T1|T0+T1 with teardown callback; T1+T0 with value None / invalid name / "
-        "non-callable teardown_callback / invalid type), add_resource_factory(T0 | T1+T0 | invalid name | None among types), lookups; "
+        "non-callable teardown_callback (truthy and falsy ones) / invalid type), add_resource_factory(T0 | T1+T0 | invalid name | None among types), lookups; "
         "then generating probes and closing of all contexts"
         if tier == "quick"
         else "histories of 4 ops over <=2 contexts; the quick alphabet plus await lookups and leave(child)"
